@@ -126,6 +126,7 @@ def run(ctx):
     entries, parent, local = parse_reach(ctx, res)
     res.rules += [
         "K5 must-not-flow: case-mapped / normalised text -> constructed values, return values, non-comparison calls (in parse-reachable functions)",
+        "K5 names stored by the parser derive from token text, never from string constants",
         "K8 lexer keyword enums derive EnumString without ascii_case_insensitive",
     ]
     nsrc_crate = 0
@@ -152,6 +153,31 @@ def run(ctx):
                 res.find(key, f.loc(fl[0][1]), "the result of %s (a case-mapped / normalised copy of program text) flows into %s in %s: the parsed program holds a name that differs from the text" % (spath, "; ".join(d for d, _ in fl), f.path.replace("quil_rs::", "")), "`DECLARE Theta REAL; RX(Theta) 0` refers to region `theta` after parsing")
     res.count("normalising_calls_in_crate (positive control)", nsrc_crate, floor=1)
     res.count("normalising_calls_on_parse_paths", nsrc, floor=1)
+
+    # K5 must-flow-from-text: a String the parser stores into an instruction / expression value is never a string constant
+    from qv.engine import expr_leaves, fn_expr_operand
+
+    nstr = 0
+    for f in db.fns:
+        if not f.path.startswith("quil_rs::parser::") or f.is_derived():
+            continue
+        for i, j, s in f.stmts():
+            if not (s["k"] == "assign" and s["rv"]["k"] == "agg" and s["rv"]["a"]["k"] == "adt"):
+                continue
+            a = s["rv"]["a"]
+            if not a["path"].startswith("quil_rs::") or "::parser::" in a["path"]:
+                continue
+            for name, op in zip(a["fields"], s["rv"]["ops"]):
+                pl = op.get("m") or op.get("c")
+                if not pl or pl["pr"] or "String" not in f.local_ty(pl["l"])["s"]:
+                    continue
+                nstr += 1
+                consts = [l[1] for l in expr_leaves(fn_expr_operand(f, op)) if l[0] == "const" and isinstance(l[1], str) and l[2] in ("&str", "std::string::String")]
+                key = "K5|name-from-constant|%s|%s.%s" % (f.path, a["path"].rsplit("::", 1)[-1], name)
+                res.site(key, True, {"fn": f.path, "field": "%s.%s" % (a["path"].rsplit("::", 1)[-1], name), "verdict": "from token text" if not consts else "VIOLATION"} if (consts or nstr % 8 == 0) else None)
+                if consts:
+                    res.find(key, f.loc(s["sp"]), "%s stores a string constant (%r) into %s.%s of the parsed program on some path: the name in the program is not the spelling in the text" % (f.path.replace("quil_rs::", ""), consts[0], a["path"].rsplit("::", 1)[-1], name), "`PRAGMA Extern foo` parses to a pragma named `%s`" % consts[0])
+    res.count("parser_string_fields_checked", nstr, floor=30)
 
     # K8: keyword enums are case sensitive
     nenum = 0
